@@ -138,3 +138,94 @@ def nice_value(rng):
 
 def describe(stack):
     return " ; ".join(f"{NAMES.get(n, n)}({a},{b})" for n, a, b in stack)
+
+
+# ---------------------------------------------------------------- expression trees -> stacks (CAS-targeted shapes)
+def tree_to_stack(tree, share=True):
+    """tree: ("x", j) | ("i", n) | ("c",) | (node, a) | (node, a, b); equal sub-trees share a row when `share`
+    (constants never share: every ("c",) is its own row)"""
+    rows, memo = [], {}
+
+    def go(t):
+        key = t if (share and t[0] != "c") else None
+        if key is not None and key in memo:
+            return memo[key]
+        if t[0] == "x":
+            row = [VARIABLE, t[1], t[1]]
+        elif t[0] == "i":
+            row = [INTEGER, t[1], t[1]]
+        elif t[0] == "c":
+            row = [CONSTANT, -1, -1]
+        elif len(t) == 2:
+            a = go(t[1])
+            row = [t[0], a, a]
+        else:
+            a, b = go(t[1]), go(t[2])
+            row = [t[0], a, b]
+        rows.append(row)
+        if key is not None:
+            memo[key] = len(rows) - 1
+        return len(rows) - 1
+
+    go(tree)
+    return rows
+
+
+def collect_tree(rng, D, with_div=True, with_pow=False, with_const=False, depth=2):
+    """expressions that exercise like-term / like-base collection: sums of k*T and products of T^e over a small
+    pool of compound terms T (sums, products, functions of the variables), nested `depth` times"""
+    def var():
+        return ("x", rng.randrange(D))
+
+    def atom():
+        r = rng.random()
+        if with_const and r < 0.15:
+            return ("c",)
+        if r < 0.25:
+            return ("i", rng.choice([-2, -1, 1, 2, 3]))
+        return var()
+
+    def base_term():
+        r = rng.random()
+        if r < 0.3:
+            return var()
+        if r < 0.55:
+            return (ADD, var(), atom())
+        if r < 0.7:
+            return (ADD, (ADD, var(), var()), atom())
+        if r < 0.85:
+            return (MUL, var(), atom())
+        return (rng.choice([SIN, COS, EXP, ABS, SQRT, SINH]), var())
+
+    def level(d):
+        pool = [base_term() for _ in range(rng.choice([1, 2, 2, 3]))] if d == 0 else [level(d - 1) for _ in range(rng.choice([1, 2, 2]))]
+        pool = pool + [var()]
+
+        def item(kind):
+            t = rng.choice(pool)
+            r = rng.random()
+            if kind == "sum":
+                if r < 0.55:
+                    return (MUL, ("i", rng.choice([-3, -2, -1, -1, 1, 2, 2, 3])), t)
+                if r < 0.65 and with_const:
+                    return (MUL, ("c",), t)
+                return t
+            if r < 0.3 and with_div:
+                return (DIV, ("i", 1), t)
+            if r < 0.5 and with_pow:
+                return (POW, t, ("i", rng.choice([-2, -1, 2, 3])))
+            return t
+
+        kind = rng.choice(["sum", "sum", "prod"])
+        items = [item(kind) for _ in range(rng.choice([2, 3, 3, 4, 5]))]
+        acc = items[0]
+        for it in items[1:]:
+            if kind == "sum":
+                op = SUB if rng.random() < 0.3 else ADD
+            else:
+                op = DIV if (with_div and rng.random() < 0.3) else MUL
+            # random association so that nested sums/products meet in every order
+            acc = (op, acc, it) if rng.random() < 0.6 or op in (SUB, DIV) else (op, it, acc)
+        return acc
+
+    return level(depth)
